@@ -519,11 +519,27 @@ class Session:
             if o["kind"] == "source" and own:
                 cands.append(("create_source_duplicate",
                               lambda o=o: self.obj(o["owner"], fresh=True).create_source(self.conc.name(o["name"]), "t")))
+        for o in state["objs"]:
+            if o["kind"] == "tag":
+                def bad_position(o=o):
+                    t = self.obj(o["id"], fresh=True)
+                    before = (tuple(t.position), tuple(t.extent))
+                    try:
+                        if self.rnd.random() < 0.5:
+                            t.position = ["a"]
+                        else:
+                            t.extent = [1.0, "a"]
+                    finally:
+                        if (tuple(t.position), tuple(t.extent)) != before:
+                            raise AssertionError("refused position / extent assignment changed the stored values")
+                cands.append(("tag_position_not_numeric", bad_position))
         cands.append(("delete_absent_block", lambda: self.nf.blocks.__delitem__("no such block")))
         self.rnd.shuffle(cands)
         for what, fn in cands[:2]:
             try:
                 fn()
+            except AssertionError as exc:
+                return "%s: %s" % (what, exc)
             except Exception:  # noqa
                 continue
             return what
@@ -711,6 +727,8 @@ class Session:
                     o.force_updated_at(t)
             elif name == "LinkAppend":
                 getattr(self.obj(act["o"]), act["l"]).append(self.obj(act["x"]))
+            elif name == "LinkExtend":
+                getattr(self.obj(act["o"]), act["l"]).extend([self.obj(act["x"]), self.obj(act["y"])])
             elif name == "LinkRemove":
                 cont = getattr(self.obj(act["o"]), act["l"])
                 x = self.obj(act["x"])
@@ -874,8 +892,25 @@ class Session:
         parent = self.nf if p == 0 else self.obj(p)
         good = self.free_name(p, k)
         self.last_free_name = good
-        nm = {"EmptyName": "", "SlashName": "sl/ash", "EmptyType": good}[why]
+        nm = {"EmptyName": "", "SlashName": "sl/ash", "EmptyType": good, "BadArgument": good}[why]
         tp = "" if why == "EmptyType" else self.conc.typ(1)
+        if why == "BadArgument":
+            v = self.rnd.randrange(3)
+            if k == "array":
+                if v == 0:
+                    parent.create_data_array(nm, tp, dtype="no-such-type", shape=(2,))
+                elif v == 1:
+                    parent.create_data_array(nm, tp, data=["text", 1.5])
+                else:
+                    parent.create_data_array(nm, tp, data=[1.0], label=5)
+            elif k == "frame":
+                from collections import OrderedDict
+                parent.create_data_frame(nm, tp, col_dict=OrderedDict([("a", np.int64), ("b", str)]), data=[("x", "y")])
+            elif k == "tag":
+                parent.create_tag(nm, tp, ["a", "b"] if v == 0 else ("abc" if v == 1 else [[1.0, 2.0], [3.0]]))
+            else:
+                parent.create_multi_tag(nm, tp, "abc" if v == 0 else ["a", "b"])
+            return
         if k == "block":
             parent.create_block(nm, tp)
         elif k == "group":
